@@ -100,7 +100,24 @@ contract(
                                   'fs': 'none' if miss == 'fs' else REAL, 'thresholds': ('dict', ALL_TK)}),
                         'xlim': 'none', 'figsize': ('tuple', [INT, INT]), 'plot_only_results': BOOL, 'interp': BOOL},
                 raises={'ValueError': 'True'})
-           for miss in ('df_features', 'sig', 'fs')],
+           for miss in ('df_features', 'sig', 'fs')] + [
+        # C20: a fitted model hands ITS OWN table, signal, rate and thresholds to the summary plot, and the caller's
+        # limits / switches unchanged (the summary plot itself is decided on the bounded side)
+        dict(label='fitted,xlim=%s' % xl,
+             params={'self': ('obj', 'bycycle.objs.fit.Bycycle',
+                              {'df_features': 'opaque', 'sig': 'opaque', 'fs': REAL, 'thresholds': ('dict', ALL_TK)}),
+                     'xlim': xt, 'figsize': ('tuple', [INT, INT]), 'plot_only_results': BOOL, 'interp': BOOL},
+             ensures=["result is None"] + [
+                 "call_arg('bycycle.plts.burst.plot_burst_detect_summary', '%s') is self.%s" % (a, b) for a, b in (('df_features', 'df_features'), ('sig', 'sig'),
+                                                                           ('threshold_kwargs', 'thresholds'))] + [
+                 "call_arg('bycycle.plts.burst.plot_burst_detect_summary', 'fs') == self.fs",
+                 "call_arg('bycycle.plts.burst.plot_burst_detect_summary', 'plot_only_result') == plot_only_results and call_arg('bycycle.plts.burst.plot_burst_detect_summary', 'interp') == interp",
+                 "call_arg('bycycle.plts.burst.plot_burst_detect_summary', 'figsize')[0] == figsize[0] and call_arg('bycycle.plts.burst.plot_burst_detect_summary', 'figsize')[1] == figsize[1]",
+                 ("call_arg('bycycle.plts.burst.plot_burst_detect_summary', 'xlim') is None" if xl == 'None' else
+                  "call_arg('bycycle.plts.burst.plot_burst_detect_summary', 'xlim') is not None and "
+                  "call_arg('bycycle.plts.burst.plot_burst_detect_summary', 'xlim')[0] == xlim[0] and "
+                  "call_arg('bycycle.plts.burst.plot_burst_detect_summary', 'xlim')[1] == xlim[1]")])
+        for xl, xt in (('None', 'none'), ('given', ('tuple', [REAL, REAL])))],
     modifies=[],
 )
 
